@@ -258,6 +258,25 @@ def thr_cases(ctx):
         out.append(" || ".join(hs))
     return out
 
+def depth_thr_cases(ctx):
+    """every thread decodes, copies, serializes and releases nested items of its own, all threads at once: the nesting
+    budget is per call, not per process"""
+    from .cborgen import nest, hx as _hx
+    rng = ctx.rng
+    out = []
+    for run in range(6 if ctx.tier == "quick" else 60):
+        n = rng.choice([4, 8, 16])
+        hs = []
+        for t in range(n):
+            ops = []
+            for j in range(6):
+                k = rng.choice(["tag", "arr", "arri", "mapv", "mapiv"])
+                ops.append("load %s" % _hx(nest(k, rng.choice([1, 2, 5, 17, 40]), (0x01,))))
+            ops += ["copy 0", "ssize 1", "ser 2 64"]
+            hs.append(_close(ops))
+        out.append(" || ".join(hs))
+    return out
+
 def shared_cases(ctx):
     from . import treegen
     trees = treegen.enumerated_trees(ctx)
